@@ -255,6 +255,9 @@ func c12(args []string) error {
 	{
 		sc := n + 1
 		rounds := 60 * n
+		if rounds > 9000 {
+			rounds = 9000
+		}
 		out := make(chan *models.Item, 4)
 		if err := reactor.Start(max, out); err != nil {
 			return err
